@@ -445,14 +445,19 @@ class cleanup_functools_wrapper(object):
         else:
             raise NotImplementedError('This context manager is not reentrant')
         self.saved_attrs = {}
-        for attr in self.attrs:
-            try:
-                value = getattr(self.func, attr)
-                delattr(self.func, attr)
-            except AttributeError:
-                pass
-            else:
-                self.saved_attrs[attr] = value
+        try:
+            for attr in self.attrs:
+                try:
+                    value = getattr(self.func, attr)
+                    delattr(self.func, attr)
+                except AttributeError:
+                    pass
+                else:
+                    self.saved_attrs[attr] = value
+        except BaseException:
+            # an attribute getter raised: put back what was already set aside
+            self.__exit__()
+            raise
 
     def __exit__(self, *exc):
         for attr, val in self.saved_attrs.items():
